@@ -87,7 +87,9 @@ structure SrcAnchor where
   /-- `glyph.lib["public.objectLibs"].get(anchor.identifier)` when it is a non-empty dict: its "GPOS_Context" entry
       ("" when the dict has none); `none` = no identifier, no entry, or an empty dict -/
   lib : Option String := none
-  /-- the anchor has an identifier but the glyph lib has no "public.objectLibs" key: the lookup raises KeyError -/
+  /-- the anchor has an identifier but the glyph lib has no "public.objectLibs" key: since the repair of
+      `_getAnchorLists` (`glyph.lib.get(OBJECT_LIBS_KEY, {}).get(anchor.identifier)`) that simply means "no lib data"
+      (`lib = none`); the flag is kept to state what the code did before (`namedAnchorOld`) -/
   idNoLib : Bool := false
   deriving Repr
 
@@ -132,13 +134,19 @@ def quantize (q x : Q) : Q := q * ((otRound (x / q) : Int) : Q)
     `none` = the anchor is skipped -/
 def namedAnchor (q : Q) (a : SrcAnchor) : Except Err (Option NA) :=
   if a.name = "" then .ok none
-  else if a.idNoLib then .error .keyErrorObjectLibs      -- `glyph.lib[OBJECT_LIBS_KEY]` before NamedAnchor(...)
   else match parseAnchor a.name.toList with
     | .error e => .error e
     | .ok p =>
       if (p.ctx && a.lib.isNone) || keyIgnorable p.key then .ok none     -- contextual without lib data / ignorable
       else .ok (some ⟨a.name, quantize q a.x, quantize q a.y, p.isMark, String.ofList p.key, p.number,
                       if p.ctx then a.lib else none⟩)
+
+/-- the loop body BEFORE the repair: `glyph.lib[OBJECT_LIBS_KEY]` raised KeyError for an anchor with an identifier on a
+    glyph without "public.objectLibs" (before NamedAnchor(...) was even called).  Kept for the counterexample only. -/
+def namedAnchorOld (q : Q) (a : SrcAnchor) : Except Err (Option NA) :=
+  if a.name = "" then .ok none
+  else if a.idNoLib then .error .keyErrorObjectLibs
+  else namedAnchor q a
 
 /-- sequential evaluation stopping at the first exception -/
 def mapE {α β ε} (f : α → Except ε β) : List α → Except ε (List β)
